@@ -31,8 +31,8 @@ def run_property(prop, tier, only=None):
         tag = '%s-%s-%s' % (prop, std.replace('+', 'p'), '_'.join(defs).replace('=', '') or 'base')
         P = Program(tag=tag, std=std, defs=defs)
         ctx = core.Ctx(prop, tier, P, CallGraph(P), config=std + (' ' + ' '.join('-D' + d for d in defs) if defs else ''))
-        mod.run(ctx)
         try:
+            mod.run(ctx)
             ctx.verify_minimums()
         except AnalysisBroken as e:
             ctx.broken = str(e)      # reported as exit 2 unless a violation was found anyway
